@@ -13,6 +13,7 @@ The interpreter is driven by a client that
   * consumes the *events* emitted by summaries.
 """
 import itertools
+import re
 
 from . import iset
 
@@ -308,6 +309,7 @@ class Interp:
         self.drop_policy = lambda inst: False  # which drop glue instances are interpreted
         self.unknown_calls = []  # names of callees that returned TOP because nothing was known
         self.assert_hook = None  # fn(state, frame, term, outcome) for recording assert discharges
+        self.skip_pointer_checks = False  # debug-build UB checks on raw pointer dereferences are not part of the semantics
         self.on_unknown_call = None
         self.index_read_hook = None  # fn(interp, st, heap model, index value) -> value
         self.cov = set()  # (instance id, bb) executed at least once
@@ -653,6 +655,9 @@ class Interp:
                 return Agg(c["ty"], 0, ())
             if t["k"] == "closure" and not t["upvars"]:
                 return Agg(c["ty"], 0, ())
+            if t["k"] == "float" and re.match(r"^Scalar\(0x[0-9a-f]+\)$", c.get("dbg", "")):
+                # a floating-point literal: opaque to arithmetic, but its bit pattern stays visible in the tag
+                return Top(c["ty"], "float:" + c["dbg"][7:-1])
             return Top(c["ty"], "const")
         raise Undecided("constant kind %r" % k)
 
@@ -1010,6 +1015,8 @@ class Interp:
                 return a
             if tk in ("ref", "ptr") and fk in ("ref", "ptr"):
                 return a
+            if tk in ("ref", "ptr") and fk == "adt" and isinstance(a, Agg) and len(a.fields) == 1 and isinstance(a.fields[0], Ref):
+                return a.fields[0]  # NonNull<T> -> *T
             if tk == "adt" and fk == "adt":
                 # repr(transparent) wrappers (e.g. Unordered<T>) — keep the value opaque
                 return a if isinstance(a, (Ref,)) else Top(to_tid, "transmute")
@@ -1490,6 +1497,9 @@ class Interp:
         pass
 
     def do_assert(self, st, f, t):
+        if self.skip_pointer_checks and t["assert"] in ("MisalignedPointerDereference", "NullPointerDereference"):
+            self.goto(f, t["target"])
+            return None
         c = self.operand(st, f, t["cond"])
         exp = 1 if t["expected"] else 0
         if isinstance(c, Conc):
